@@ -4,7 +4,7 @@ import pipeline
 import vlib
 
 SUB, JUDGE = "parse", "OFParseTrace"
-FAMS = {"SW": 16, "PI": 90, "MP": 20, "CT": 80}
+FAMS = {"SW": 16, "PI": 90, "MP": 20, "CT": 80, "XO": 12}
 
 
 def gen(ctx, fam, tags):
